@@ -66,6 +66,43 @@ def in_domain(s):
     return True
 
 
+CHARGE_RE = re.compile(r'^([+-])(?:[ \t\n\r\x0b\x0c]*([0-9]+(?:_[0-9]+)*)[ \t\n\r\x0b\x0c]*)?$')
+CHARGE_ALPHABET = "+-0123456789 _x.\t"
+CHARGE_SEEDS = ['+', '-', '+3', '-2', '+12', '3+2', '2-1', '3+', '3-', '3', '', 'x', '+x', '+-', '-+', '+-3', '++3', '--', '+ 3', '+3 ', '-1_0',
+                '+1__0', '+_1', '-1_', '+ ', '1+2-', '+1 0', '12+34', 'a+b', '+0', '-007', '+3.0', '.+', '+\t2\n']
+
+
+def charge_spec(s):
+    """independent re-statement (ASCII): `_get_charge` returns the written signed integer on `+`, `-`, sign + int()-readable number,
+    and raises ValueError on everything else"""
+    m = CHARGE_RE.match(s)
+    if not m:
+        return 'ValueError'
+    sign = 1 if m.group(1) == '+' else -1
+    return str(sign * (1 if m.group(2) is None else int(m.group(2).replace('_', ''))))
+
+
+def leading_int_spec(s):
+    i = 0
+    while i < len(s) and '0' <= s[i] <= '9':
+        i += 1
+    return [int(s[:i]) if i else 1, s[i:]]
+
+
+def gen_charge_text(rng):
+    r = rng.random()
+    if r < 0.35:
+        return rng.choice(CHARGE_SEEDS)
+    if r < 0.6:
+        return rng.choice('+-') + str(rng.randint(0, 99))
+    return ''.join(rng.choice(CHARGE_ALPHABET) for _ in range(rng.randint(0, 5)))
+
+
+def gen_leading_text(rng):
+    digits = ''.join(rng.choice('0123456789') for _ in range(rng.choice([0, 0, 1, 2, 3, 7])))
+    return digits + rng.choice(['', 'H2O', ' H2O', 'x', '.5', 'H2O7', '\n3', '+3', 'e'])
+
+
 # --------------------------------------------------------------------------- canonical text
 def show_comp_exact(comp):
     return ' '.join('%d:%s' % (k, show_rat(v)) for k, v in comp.items())
@@ -241,7 +278,7 @@ class C01(Property):
             'counts, hydrate parts with both separators and leading counts, every default prefix, suffixes, states, primes/stars, charges) rendered '
             'and parsed by formula_to_composition and Substance.from_formula; ordered pairs of adjacent symbols (all 118^2 in the thorough tier, '
             '1500 random ones in the quick tier); whitespace variants; a malformed stream (drop/duplicate/swap characters, stray or missing brackets, '
-            'unknown capitalised tokens, contradictory / repeated charge marks, int()-forms of the charge number (blanks, underscores), slashes, stray separators); operation histories (parse / Substance.from_formula(charge=) / Species.from_formula / in-place mutation of returned dicts / parse again) over one or two formulas. A case counts as non-trivial when it is '
+            'unknown capitalised tokens, contradictory / repeated charge marks, int()-forms of the charge number (blanks, underscores), slashes, stray separators); direct calls of _get_charge / _get_leading_integer on arbitrary short ASCII strings (every return / raise branch); operation histories (parse / Substance.from_formula(charge=) / Species.from_formula / in-place mutation of returned dicts / parse again) over one or two formulas. A case counts as non-trivial when it is '
             'a distinct JSON value whose text has at least two characters.')
     clauses_without_theorem = (
         'model <-> Python: pyparsing engine, str methods, dict order are modelled by hand; the tie is the correspondence check only (all theorems are about the model)',
@@ -287,11 +324,21 @@ class C01(Property):
             f['prefixes'] = [p]
             f['suffix'] = rng.choice([''] + fg.SUFFIXES)
             cases.append({'op': 'roundtrip', 'src': 'gen', 'ast': f})
+        for t in CHARGE_SEEDS:                                       # `_get_charge` / `_get_leading_integer` called directly (every branch)
+            cases.append({'op': 'charge', 's': t})
+        for t in ['', '7', '12H2O', 'H2O', '007H', '3.5H', ' 3H', '3\n4']:
+            cases.append({'op': 'leading_int', 's': t})
         target = n + len(pairs)
         while len(cases) < target:
             r = rng.random()
             if r < 0.04:
                 cases.append(gen_history(rng))
+                continue
+            if r < 0.07:
+                cases.append({'op': 'charge', 's': gen_charge_text(rng)})
+                continue
+            if r < 0.08:
+                cases.append({'op': 'leading_int', 's': gen_leading_text(rng)})
                 continue
             f = fg.gen_formula(rng, max_depth=depth if rng.random() < 0.5 else rng.randint(0, depth))
             s = fg.render(f)
@@ -332,6 +379,22 @@ class C01(Property):
             if canon_exc(a) != canon_exc(b):
                 return '!formula_to_composition=%s but Substance.from_formula=%s' % (a, b)
             return a
+        if op == 'charge':
+            from chempy.util.parsing import _get_charge
+            try:
+                r = _get_charge(c['s'])
+                return str(r) if type(r) is int else '!bad-type:%s' % type(r).__name__
+            except Exception as e:
+                return exc_name(e)
+        if op == 'leading_int':
+            from chempy.util.parsing import _get_leading_integer
+            try:
+                m, rest = _get_leading_integer(c['s'])
+                if type(m) is not int or type(rest) is not str:
+                    return '!bad-type'
+                return json.dumps([m, rest], separators=(',', ':'), ensure_ascii=False)
+            except Exception as e:
+                return exc_name(e)
         if op == 'parts':
             from chempy.util.parsing import _formula_to_parts, _latex_mapping
             try:
@@ -343,6 +406,13 @@ class C01(Property):
 
     def same(self, c, io, mo):
         op = c['op']
+        if op == 'charge':
+            return io == mo                       # exact: the integer, or the exception class (ValueError)
+        if op == 'leading_int':
+            try:
+                return json.loads(io) == json.loads(mo)
+            except Exception:
+                return io == mo
         if op == 'parts':
             if io in REJECT or mo in REJECT:
                 return canon_exc(io) == canon_exc(mo)
@@ -385,6 +455,27 @@ class C01(Property):
                     exact = not fg.has_decimal(f) and abs(v) < 2 ** 53
                     if (exact and Fraction(g) != v) or not close(g, v, self.float_tol, 0.0):
                         return '%s(%r)[%d] = %r, written amount is %s' % (name, s, k, g, v)
+            return None
+        if c['op'] == 'charge':
+            from chempy.util.parsing import _get_charge
+            want = charge_spec(c['s'])
+            try:
+                r = _get_charge(c['s'])
+                got = str(r) if type(r) is int else 'a %s' % type(r).__name__
+            except Exception as e:
+                got = exc_name(e)
+            if got != want:
+                return '_get_charge(%r) gave %s, the written charge token means %s' % (c['s'], got, want)
+            return None
+        if c['op'] == 'leading_int':
+            from chempy.util.parsing import _get_leading_integer
+            want = leading_int_spec(c['s'])
+            try:
+                got = list(_get_leading_integer(c['s']))
+            except Exception as e:
+                got = exc_name(e)
+            if got != want:
+                return '_get_leading_integer(%r) gave %r, the leading digits mean %r' % (c['s'], got, want)
             return None
         if c['op'] == 'parse':
             cls = ill_classes(c['s'])
@@ -495,13 +586,15 @@ class C01(Property):
             f = c['ast']
             return 'ast:%s:depth%d%s%s%s%s' % (c.get('src', 'gen'), fg.depth(f), ':dec' if fg.has_decimal(f) else '', ':chg' if f['charge'] else '',
                                                ':hyd' if len(f['parts']) > 1 else '', ':affix' if (f['prefixes'] or f['suffix']) else '')
+        if c['op'] == 'charge':
+            return 'charge:' + ('accepted' if charge_spec(c['s']) != 'ValueError' else 'refused')
         if c['op'] == 'parse':
             cls = ill_classes(c['s'])
             return 'text:%s:%s' % (c.get('src', '?'), '+'.join(cls) if cls else 'unclassified')
         return c['op']
 
     def nontrivial(self, c):
-        if c.get('kind') == 'history':
+        if c.get('kind') == 'history' or c.get('op') in ('charge', 'leading_int'):
             return True
         s = fg.render(c['ast']) if c['op'] == 'roundtrip' else c.get('s', '')
         return len(s) >= 2
